@@ -3,6 +3,9 @@
 
 use std::fmt;
 use std::fmt::{Debug, Display, Formatter};
+#[cfg(rfsm_verif)]
+use crate::verif_seams::sync::atomic::Ordering;
+#[cfg(not(rfsm_verif))]
 use std::sync::atomic::Ordering;
 
 #[cfg(feature = "Debug")]
